@@ -234,7 +234,9 @@ static HOOK_DROP: Mutex<Option<String>> = Mutex::new(None);
 
 fn main() {
     let args: Vec<String> = std::env::args().collect();
-    hx::quiet_panics();
+    if std::env::var("C08_LOUD").is_err() {
+        hx::quiet_panics();
+    }
     if args.len() >= 3 && args[1] == "--verify" {
         let root = args[2].clone();
         let mut a: Vec<&str> = vec!["--path", &root];
